@@ -101,8 +101,8 @@ func main() {
 		}
 		es = audgen.FilterSinks(es, sinks)
 		ves := audgen.ToVerifEvents(es)
-		full := cmd.VerifAudition(text, ves, false, false)
-		early := cmd.VerifAudition(text, ves, true, false)
+		full := cmd.VerifAuditLoop(text, ves, false)
+		early := cmd.VerifAuditLoop(text, ves, true)
 		if full.ParseErr != "" {
 			stats["parse-rejected"]++
 			continue
